@@ -817,6 +817,29 @@ func groupSpellings() {
 		}
 		s.addRaw("JSONOnly", prim("string"), `json:"only"`, -1, false)
 	}
+	// an embedded struct that itself declares the unknown-fields holder: embedded fields are ignored and
+	// the outer struct has no holder of its own (D14: the holder was looked up among promoted fields too)
+	for _, byPtr := range []bool{false, true} {
+		eo := newStruct("spellings")
+		eo.addRaw("X", prim("int64"), `frugal:"1,default,i64"`, 1, true)
+		eo.addRaw("Y", prim("string"), `frugal:"2,default,string"`, 2, true)
+		ty := sref(leafHolder)
+		if byPtr {
+			ty = ptr(sref(leafHolder))
+		}
+		f := eo.addRaw("", ty, "", -1, false)
+		f.Embedded = true
+		eo.addRaw("Z", prim("string"), `frugal:"3,optional,string"`, 3, true)
+	}
+	// zero-size fields share their offset with the field after them (D15: the required-field error
+	// named the field by offset)
+	em := newStruct("leaf")
+	zs := newStruct("ids")
+	zs.add("E", sref(em), 1, "default")
+	zs.add("R", prim("int32"), 2, "required")
+	zs.add("S", prim("string"), 3, "required")
+	zs.add("E2", sref(em), 4, "required")
+	zs.add("T", prim("int64"), 5, "required")
 	// struct annotations: bare, package qualified, pointer, in containers
 	s := newStruct("spellings")
 	s.addRaw("A", sref(leaf), fmt.Sprintf(`frugal:"1,default,%s"`, leaf.Name), 1, true)
@@ -1277,6 +1300,9 @@ func emit(outDir string) {
 			if f.Embedded {
 				emb = 1
 				name = f.Ty.Name
+				if f.Ty.K == "ptr" {
+					name = f.Ty.Elem.Name
+				}
 				fmt.Fprintf(&g, "\t%s `%s`\n", f.Ty.GoExpr(), f.Tag)
 			} else {
 				if f.Tag != "" {
